@@ -179,12 +179,16 @@ func handleOpen(h *Handler, iq openIQ, e xmlstream.Encoder) error {
 	h.addStream(iq.Open.SID, conn)
 
 	l.eLock.Lock()
-	defer l.eLock.Unlock()
 	key := iq.From.String() + ":" + iq.Open.SID
 	expect, ok := l.expected[key]
 	if ok {
 		delete(l.expected, key)
+		// Does not block: the channel has room for one connection and every
+		// registration is used once.
 		expect.c <- conn
+	}
+	l.eLock.Unlock()
+	if ok {
 		return nil
 	}
 	l.c <- conn
